@@ -161,7 +161,24 @@ def states(tier, seed):
 
 
 def _states_deep(seed):
-    return []
+    """one-hot states for all 14 pids x all 6 nodes x every key; theory-card path on the full product of schemes x PTO x reference couplings x kThr x masses/Qm x XIR."""
+    out = []
+    for ki in range(len(_KEYS)):
+        for pid, node in itertools.product(PIDS, range(len(G))):
+            out.append({"t": "onehot", "key": list(_KEYS[ki]), "pid": pid, "node": node})
+    fnss = [("ZM-VFNS", 3), ("FFNS", 3), ("FFNS", 4), ("FFNS", 5), ("FFNS", 6), ("FONLL-FFNS", 3), ("FONLL-FFNS", 4), ("FONLL-FFNS", 5), ("FFN0", 3), ("FFN0", 4), ("FFN0", 5), ("FONLL-FFN0", 3), ("FONLL-FFN0", 4)]
+    refs = [(0.118, 91.2, 5), (0.35, 1.65, 4), (0.25, 3.0, 3), (0.118, 91.2, 4), (0.2, 10.0, 5), (0.09, 500.0, 6)]
+    kthr = [(1.0, 1.0, 1.0), (2.0, 2.0, 2.0), (0.5, 2.0, 1.0), (1.5, 0.75, 1.0), (3.0, 1.0, 0.5)]
+    for (fns, nf), pto, ref, k, xir in itertools.product(fnss, [0, 1, 2], refs, kthr, [1.0, 1.6, 0.4]):
+        out.append({"t": "theory", "fns": fns, "nfff": nf, "pto": pto, "alphas": ref[0], "Qref": ref[1], "nfref": ref[2], "k": list(k), "ModEv": "EXA", "XIR": xir})
+    for (fns, nf), pto, ref, k, (ms, qm) in itertools.product(fnss[:6], [1, 2], refs[:3], kthr[:3], [(None, 2.0), ([1.3, 4.2, 173.0], 0.75), ([1.3, 4.2, 173.0], None), ([2.0, 5.5, 160.0], 1.5)]):
+        st = {"t": "theory", "fns": fns, "nfff": nf, "pto": pto, "alphas": ref[0], "Qref": ref[1], "nfref": ref[2], "k": list(k), "ModEv": "EXA", "XIR": 1.0, "qm": qm}
+        if ms:
+            st["m"] = ms
+        out.append(st)
+    for aq, xir, xif, fns in itertools.product([0.001, 0.007496252, 0.0123, 0.1], [1.0, 0.5, 2.0, 0.3, 3.0], [1.0, 0.5, 2.0, 0.3, 3.0], ["ZM-VFNS", "FFNS", "FFN0", "FONLL-FFNS"]):
+        out.append({"t": "theory2", "alphaqed": aq, "XIR": xir, "XIF": xif, "fns": fns})
+    return out
 
 
 def execute(st):
